@@ -7,7 +7,7 @@
 (* computed here from the definitions (Kemeny.tla, Positional.tla,         *)
 (* LocalSearch.tla), never by the harness.                                 *)
 (***************************************************************************)
-EXTENDS Kemeny, Scheme, Positional, LocalSearchDefs, Json, IOUtils
+EXTENDS Kemeny, Scheme, Positional, LocalSearchDefs, Partition, Json, IOUtils
 
 VARIABLES i, verdict
 
@@ -18,15 +18,16 @@ Prop  == Aux.prop
 
 
 IsBio(cfg)     == cfg \in {"BioConsert", "BioCo", "Bio[Borda]", "Bio[Copeland,KwikSort]", "Bio[PickAPerm]",
-                           "Bio[PickAPerm,Copeland]", "Bio[Borda,Copeland,KwikSort]"}
+                           "Bio[PickAPerm,Copeland]", "Bio[Borda,Copeland,KwikSort]", "Bio[Borda,BordaBid]"}
 HasStarters(cfg) == IsBio(cfg) /\ cfg # "BioConsert"
 IsExact(cfg)   == cfg \in {"ExactPulp", "Exact(opt)", "Exact(noopt)", "ExactCplex(opt)", "ExactCplex(noopt)",
                            "ExactOptim1"}
 IsSelector(cfg) == cfg \in {"Exact(opt)", "Exact(noopt)"}
 IsParCons(cfg) == cfg \in {"ParCons", "ParCons(b0,BioConsert)", "ParCons(b1,KwikSort)", "ParCons(b2,Borda)",
+                           "ParCons(b3,BioConsert)",
                            "ParCons(b0,BioCo)", "ParCons(b0,ParCons(b0,Borda))", "ParCons(b80,rec)"}
 \* configurations that the property C14 says refuse incomplete data exactly when not relevant
-Refusing(cfg)  == cfg \in {"Borda", "BordaBid", "PickAPerm", "BioCo", "Bio[Borda]", "Bio[PickAPerm]",
+Refusing(cfg)  == cfg \in {"Borda", "BordaBid", "PickAPerm", "BioCo", "Bio[Borda]", "Bio[PickAPerm]", "Bio[Borda,BordaBid]",
                            "Bio[PickAPerm,Copeland]", "Bio[Borda,Copeland,KwikSort]"}
 
 Verdict(rec) ==
@@ -82,7 +83,7 @@ Verdict(rec) ==
                ELSE IF ~IsParCons(rec.cfg) THEN <<"ok", "flag">>
                ELSE IF ~IsPartition(WP) THEN <<"viol", "C06:weak-partition">>
                ELSE IF ~RespectsP(WP, K[1]) THEN <<"viol", "C06:consensus-respects-partition">>
-               ELSE IF ~\E c \in OptSet(C, U) : RespectsP(WP, c) THEN <<"viol", "C06:partition-admits-optimum">>
+               ELSE IF PartOpt(C, WP) # OptV THEN <<"viol", "C06:partition-admits-optimum">>
                ELSE IF Aux.auxlogged = 1 /\ ((rec.opt = 1) # (rec.auxcalls = 0))
                     THEN <<"viol", "C06:flag-iff-no-delegation">>
                ELSE <<"ok", "parcons">>
@@ -149,7 +150,8 @@ Verdict(rec) ==
                ELSE IF rec.pred = "true" /\ ~WF THEN <<"viol", "C14:relevant-but-malformed">>
                ELSE IF Refusing(rec.cfg) /\ rec.pred = "false" /\ Got THEN <<"viol", "C14:not-relevant-but-accepts">>
                ELSE <<"ok", "incomplete">>
-    IN IF ~IsDataset(D) \/ ~Valid(B, T) THEN <<"skip", "input-outside-domain">>
+    IN IF rec.out = "setup-failed" THEN <<"skip", "setup-failed">>
+       ELSE IF ~IsDataset(D) \/ ~Valid(B, T) THEN <<"skip", "input-outside-domain">>
        ELSE CASE Prop = "C03" -> V03
               [] Prop = "C04" -> V04
               [] Prop = "C05" -> V05
